@@ -301,9 +301,135 @@ def execute(case, seed):
     return viol, obs
 
 
+def execute_layout(case, seed):
+    """part (c): arbitrary placements - several shares per server, the same share number on several
+    servers, servers without shares; optionally ONE corrupt copy.  check(verify) and the pre-repair
+    results of check_and_repair are judged against the placement."""
+    F = FILES[case["file"]]
+    k, n = F["k"], F["n"]
+    prep = lib_imm.prepare(k, n, F["seg"], F["size"], seed)
+    S, verify = case["S"], case["verify"]
+    holders = case["layout"]                  # per share number: list of servers holding a copy
+    bad_copy = tuple(case["corrupt"]) if case.get("corrupt") else None      # (server, shnum) holding a corrupt copy
+    viol, obs = [], {}
+    g = grid.Grid(S, client_kw=dict(k=k, n=n, happy=1, max_segment_size=F["seg"]))
+    try:
+        placement = {sh: list(svs) for sh, svs in enumerate(holders) if svs}
+        blobs = {}
+        if bad_copy:
+            blobs[(bad_copy[0], bad_copy[1])] = lib_imm.damage(prep["shares"][bad_copy[1]], "corrupt-block0")
+        if placement:
+            lib_imm.place(g, prep, placement, blobs)
+        ids = {g.ids[i]: i for i in range(S)}
+        truth = {}
+        for sh, svs in placement.items():
+            for sv in svs:
+                if verify and bad_copy == (sv, sh):
+                    continue
+                truth.setdefault(sh, set()).add(sv)
+        vcap = tahoe_uri.from_string(prep["cap"]).get_verify_cap().to_string()
+
+        def judge(cr, tag):
+            sm = {sh: set(ids[s.get_serverid()] for s in servers) for sh, servers in cr.get_sharemap().items()}
+            sm = {sh: v for sh, v in sm.items() if v}
+            desc = "%s verify=%s layout(share->servers)=%r corrupt copy=%r" % (tag, verify, holders, bad_copy)
+            if sm != truth:
+                viol.append(("layout:sharemap-wrong", "%s: reported %r, good copies are %r" % (desc, {a: sorted(b) for a, b in sm.items()}, {a: sorted(b) for a, b in truth.items()})))
+            good = len(truth)
+            if cr.is_healthy() != (good == n):
+                viol.append(("layout:healthy-flag-wrong", "%s: is_healthy()=%r with %d distinct good shares of N=%d" % (desc, cr.is_healthy(), good, n)))
+            if cr.is_recoverable() != (good >= k):
+                viol.append(("layout:recoverable-flag-wrong", "%s: is_recoverable()=%r with %d distinct good shares on %d servers, k=%d" % (desc, cr.is_recoverable(), good, len(set(sv for v in truth.values() for sv in v)), k)))
+            if cr.get_share_counter_good() != good:
+                viol.append(("layout:good-share-counter-wrong", "%s: count-shares-good=%r, distinct good shares=%d" % (desc, cr.get_share_counter_good(), good)))
+            return good
+        node = g.clients[0].create_node_from_uri(vcap)
+        try:
+            b = g.wait(node.check(Monitor(), verify=verify))
+        except Exception as e:  # noqa
+            viol.append(("layout:check-raised:" + type(e).__name__, "layout=%r: %r" % (holders, e)))
+            return viol, obs
+        g.quiesce()
+        if not b:
+            viol.append(("check-never-completes", "layout=%r verify=%s" % (holders, verify)))
+            return viol, obs
+        if b[0][0] != "ok":
+            viol.append(("layout:check-errback:" + lib_imm.failure_name(b[0][1]), "check(verify=%s) failed: %s; layout=%r" % (verify, b[0][1].getErrorMessage()[:300], holders)))
+            return viol, obs
+        good = judge(b[0][1], "check")
+        obs["check"] = (good, b[0][1].is_healthy(), b[0][1].is_recoverable())
+        # check_and_repair: pre-repair verdict, and the file must be readable afterwards when it was recoverable
+        node2 = g.clients[0].create_node_from_uri(vcap)
+        b = g.wait(node2.check_and_repair(Monitor(), verify=verify))
+        g.quiesce()
+        if not b:
+            viol.append(("repair-never-completes", "layout=%r verify=%s" % (holders, verify)))
+        elif b[0][0] != "ok":
+            obs["repair"] = "err:" + lib_imm.failure_name(b[0][1])
+            if good >= k and not bad_copy:
+                viol.append(("layout:repair-failed-on-recoverable-file:" + lib_imm.failure_name(b[0][1]), "%s; layout=%r verify=%s" % (b[0][1].getErrorMessage()[:300], holders, verify)))
+        else:
+            crr = b[0][1]
+            judge(crr.get_pre_repair_results(), "pre-repair")
+            attempted = bool(crr.get_repair_attempted())
+            obs["repair"] = "not-needed" if not attempted else ("success" if crr.get_repair_successful() else "unsuccessful")
+            if attempted and crr.get_repair_successful():
+                on_disk = set(int(p_.rsplit("/", 1)[1]) for (s_, p_) in g.share_files() if not p_.startswith("incoming"))
+                if on_disk != set(range(n)):
+                    viol.append(("repair-success-with-missing-shares", "layout=%r: share numbers %r exist after a 'successful' repair" % (holders, sorted(on_disk))))
+        if good >= k:
+            rnode = g.clients[0].create_node_from_uri(prep["cap"])
+            b2, cons = lib_imm.read(g, rnode)
+            g.quiesce()
+            if not (b2 and b2[0][0] == "ok" and cons.data() == prep["data"]):
+                viol.append(("layout:file-unreadable-after-repair", "layout=%r verify=%s repair=%r" % (holders, verify, obs.get("repair"))))
+        for e in boot.R.take_errors():
+            viol.append(("exception-in-timer:" + type(e.value).__name__, e.getTraceback()[-400:]))
+        obs["logged"] = sorted(set(type(f.value).__name__ for (why, f) in boot.take_logged()))
+        obs["calls"] = g.sched.issued
+    finally:
+        g.close()
+    return viol, obs
+
+
+def layout_cases(tier):
+    out = []
+    plans = [("F24", 2), ("F24", 3)] if tier == "quick" else [("F24", 2), ("F24", 3), ("F35", 2), ("F35", 3), ("F24", 4)]
+    for fname, S in plans:
+        n = FILES[fname]["n"]
+        subsets = [[sv for sv in range(S) if m >> sv & 1] for m in range(1 << S)]
+        if (fname, S) == ("F24", 4) or (fname, S) == ("F35", 3):
+            subsets = [x for x in subsets if len(x) <= 2]
+        if tier == "quick" and S == 3:
+            subsets = [x for x in subsets if len(x) <= 1]      # quick: at most one copy per share number on 3 servers
+        for layout in itertools.product(subsets, repeat=n):
+            for verify in (False, True):
+                out.append({"file": fname, "S": S, "layout": [list(x) for x in layout], "verify": verify})
+            # one corrupt copy of a share that is stored twice (verify must not count it; the other copy stays good)
+            dup = [(sh, svs) for sh, svs in enumerate(layout) if len(svs) >= 2]
+            if dup and S <= 3 and fname == "F24":
+                sh, svs = dup[0]
+                out.append({"file": fname, "S": S, "layout": [list(x) for x in layout], "verify": True, "corrupt": [svs[0], sh]})
+    return out
+
+
 def _chunk(cases, seed):
     res = common.Result()
     for case in cases:
+        if "layout" in case:
+            viol, obs = execute_layout(case, seed)
+            res.count("evaluations")
+            res.count("layouts")
+            res.count("remote_calls", obs.get("calls", 0))
+            if sum(len(x) for x in case["layout"]) != len(set(sv for x in case["layout"] for sv in x)) or any(len(x) > 1 for x in case["layout"]):
+                res.count("damaged_states")
+            res.distinct.add(("layout", case["file"], case["verify"], obs.get("check"), obs.get("repair")))
+            res.count("repair:" + str(obs.get("repair")))
+            for nm in obs.get("logged", ()):
+                res.count("logged-exception:" + nm)
+            for sig, msg in viol:
+                res.violation(sig, case, msg + " | case=%r" % (case,))
+            continue
         viol, obs = execute(case, seed)
         res.count("evaluations")
         res.count("remote_calls", obs.get("calls", 0))
@@ -392,20 +518,23 @@ def all_cases(tier, seed):
 
 
 def replay(case):
-    viol, obs = execute(case, boot.SEED)
+    viol, obs = (execute_layout if "layout" in case else execute)(case, boot.SEED)
     return viol
 
 
 def run(tier, seed):
     cases = all_cases(tier, seed)
-    res = common.pmap(_chunk, cases, (seed,), chunks=min(len(cases), 256))
+    lay = layout_cases(tier)
+    cases = cases + lay
+    res = common.pmap(_chunk, cases, (seed,), chunks=min(len(cases), 512))
     cov = {
         "evaluations": res.counts.get("evaluations", 0),
         "distinct_nontrivial": res.counts.get("damaged_states", 0),
         "exhaustive": True,
         "rule": "one evaluation = check + check_and_repair + read-from-repaired-shares on one damage state; non-trivial = states with at least one share deleted or corrupted; "
                 "states: every (deleted subset, corrupted subset of the rest, one of %d kinds, verify) for 2-of-4 and 3-of-5%s" % (
-                    len(KINDS), "" if tier == "quick" else ", on N and N+2 servers, single-segment variants, every independent per-share kind assignment (2-of-4), every single-byte flip of the first and last share under verify"),
+                    len(KINDS), "" if tier == "quick" else ", on N and N+2 servers, single-segment variants, every independent per-share kind assignment (2-of-4), every single-byte flip of the first and last share under verify") + "; part (c): every assignment of a server subset to each share number (several shares per server, duplicated share numbers, empty servers) on 2..3 servers x verify, check and check_and_repair judged against the placement",
+        "placement_layouts": res.counts.get("layouts", 0),
         "distinct_outcome_vectors": len(res.distinct),
         "repair_outcomes": {kk[7:]: v for kk, v in res.counts.items() if kk.startswith("repair:")},
         "read_outcomes": {kk[5:]: v for kk, v in res.counts.items() if kk.startswith("read:")},
